@@ -110,6 +110,62 @@ pub struct SavedVmState {
     pub new_target: JsValue,
     /// Trampoline call stack (for nested function calls)
     pub trampoline_stack: Vec<SavedTrampolineFrame>,
+    /// `this` of the suspended frame (None: the resumer supplies it, as for generators)
+    pub this_value: Option<JsValue>,
+    /// Block scopes that were open in the suspended frame (innermost last)
+    pub saved_env_stack: Vec<Gc<JsObject>>,
+    /// Completion a finally block was about to finish when the frame suspended
+    pub pending_completion: Option<SavedCompletion>,
+    /// Exception a catch block had not bound yet
+    pub exception_value: Option<JsValue>,
+    /// Constructor the suspended frame was running (for super calls)
+    pub current_constructor: Option<Gc<JsObject>>,
+}
+
+/// A pending completion without its guard (the saved state's guard roots the value)
+#[derive(Clone)]
+pub enum SavedCompletion {
+    Return(JsValue),
+    Throw(JsValue),
+    Break { target: usize, try_depth: u8 },
+    Continue { target: usize, try_depth: u8 },
+}
+
+impl SavedCompletion {
+    fn of(pending: &Option<PendingCompletion>) -> Option<SavedCompletion> {
+        pending.as_ref().map(|p| match p {
+            PendingCompletion::Return(g) => SavedCompletion::Return(g.value.clone()),
+            PendingCompletion::Throw(g) => SavedCompletion::Throw(g.value.clone()),
+            PendingCompletion::Break { target, try_depth } => SavedCompletion::Break {
+                target: *target,
+                try_depth: *try_depth,
+            },
+            PendingCompletion::Continue { target, try_depth } => SavedCompletion::Continue {
+                target: *target,
+                try_depth: *try_depth,
+            },
+        })
+    }
+
+    fn value(&self) -> Option<&JsValue> {
+        match self {
+            SavedCompletion::Return(v) | SavedCompletion::Throw(v) => Some(v),
+            _ => None,
+        }
+    }
+
+    fn restore(self, heap: &crate::gc::Heap<JsObject>) -> PendingCompletion {
+        match self {
+            SavedCompletion::Return(v) => PendingCompletion::Return(Guarded::from_value(v, heap)),
+            SavedCompletion::Throw(v) => PendingCompletion::Throw(Guarded::from_value(v, heap)),
+            SavedCompletion::Break { target, try_depth } => {
+                PendingCompletion::Break { target, try_depth }
+            }
+            SavedCompletion::Continue { target, try_depth } => {
+                PendingCompletion::Continue { target, try_depth }
+            }
+        }
+    }
 }
 
 /// A call frame in the VM
@@ -190,6 +246,10 @@ pub struct SavedTrampolineFrame {
     pub construct_new_obj: Option<Gc<JsObject>>,
     /// For async function calls: wrap result in a Promise when returning
     pub is_async: bool,
+    /// Completion a finally block of this frame was about to finish
+    pub pending_completion: Option<SavedCompletion>,
+    /// Exception a catch block of this frame had not bound yet
+    pub exception_value: Option<JsValue>,
 }
 
 /// A saved VM frame for the trampoline call stack
@@ -1854,6 +1914,16 @@ impl BytecodeVM {
                     guard.guard(obj.cheap_clone());
                 }
 
+                                let pending_completion = SavedCompletion::of(&frame.pending_completion);
+                if let Some(JsValue::Object(obj)) = pending_completion.as_ref().and_then(|c| c.value())
+                {
+                    guard.guard(obj.cheap_clone());
+                }
+                let exception_value = frame.exception_value.as_ref().map(|g| g.value.clone());
+                if let Some(JsValue::Object(obj)) = &exception_value {
+                    guard.guard(obj.cheap_clone());
+                }
+
                 SavedTrampolineFrame {
                     ip: frame.ip,
                     chunk: frame.chunk.clone(),
@@ -1869,9 +1939,19 @@ impl BytecodeVM {
                     saved_interp_env: frame.saved_interp_env.cheap_clone(),
                     construct_new_obj: frame.construct_new_obj.clone(),
                     is_async: frame.is_async,
+                    pending_completion,
+                    exception_value,
                 }
             })
             .collect();
+
+        let pending_completion = SavedCompletion::of(&self.pending_completion);
+        if let Some(JsValue::Object(obj)) = pending_completion.as_ref().and_then(|c| c.value()) {
+            guard.guard(obj.cheap_clone());
+        }
+        if let Some(ref ctor) = self.current_constructor {
+            guard.guard(ctor.cheap_clone());
+        }
 
         SavedVmState {
             frames: self.call_stack.clone(),
@@ -1883,6 +1963,11 @@ impl BytecodeVM {
             arguments: self.arguments.clone(),
             new_target: self.new_target.clone(),
             trampoline_stack: saved_trampoline_stack,
+            this_value: Some(self.this_value.clone()),
+            saved_env_stack: self.saved_env_stack.clone(),
+            pending_completion,
+            exception_value: self.exception_value.as_ref().map(|g| g.value.clone()),
+            current_constructor: self.current_constructor.clone(),
         }
     }
 
@@ -1894,9 +1979,18 @@ impl BytecodeVM {
         guard: Guard<JsObject>,
         heap: &crate::gc::Heap<JsObject>,
     ) -> Self {
+        // A frame suspended by await / order() resumes with its own `this`
+        let this_value = state.this_value.clone().unwrap_or(this_value);
+
         // Guard this_value if it's an object
         if let JsValue::Object(obj) = &this_value {
             guard.guard(obj.cheap_clone());
+        }
+        for env in &state.saved_env_stack {
+            guard.guard(env.cheap_clone());
+        }
+        if let Some(ref ctor) = state.current_constructor {
+            guard.guard(ctor.cheap_clone());
         }
 
         // Guard all objects in the restored registers
@@ -1951,12 +2045,14 @@ impl BytecodeVM {
                     this_value: saved.this_value,
                     vm_call_stack: saved.vm_call_stack,
                     try_stack: saved.try_stack,
-                    exception_value: None, // Lost during save, but we handle exceptions differently on resume
+                    exception_value: saved
+                        .exception_value
+                        .map(|v| Guarded::from_value(v, heap)),
                     saved_env_stack: saved.saved_env_stack,
                     arguments: saved.arguments,
                     new_target: saved.new_target,
                     current_constructor: saved.current_constructor,
-                    pending_completion: None, // Lost during save
+                    pending_completion: saved.pending_completion.map(|c| c.restore(heap)),
                     return_register: saved.return_register,
                     saved_interp_env: saved.saved_interp_env,
                     register_guard: frame_guard,
@@ -1974,12 +2070,14 @@ impl BytecodeVM {
             call_stack: state.frames,
             try_stack: state.try_stack,
             this_value,
-            exception_value: None,
-            saved_env_stack: Vec::new(),
+            exception_value: state
+                .exception_value
+                .map(|v| Guarded::from_value(v, heap)),
+            saved_env_stack: state.saved_env_stack,
             arguments: state.arguments,
             new_target: state.new_target,
-            current_constructor: None,
-            pending_completion: None,
+            current_constructor: state.current_constructor,
+            pending_completion: state.pending_completion.map(|c| c.restore(heap)),
             trampoline_stack,
             register_pool: Vec::new(),
             arguments_pool: Vec::new(),
